@@ -280,6 +280,13 @@ def c06_motion(w, k, op, before, sim, reports):
                 bl = [l.link_id for l in broute]; al = [l.link_id for l in route]
                 if al != bl[len(bl) - len(al):]:
                     out.append(('C06', 'remaining_route_not_suffix', {'vehicle': v.id, 'before': bl, 'after': al}))
+            if len(broute) > 0 and len(route) > 0:
+                # a route whose links can all be driven within this step (whole-second travel times, as the simulator counts them) is
+                # exhausted by the step
+                need = sum(sim.road_network.link_from_link_id(l.link_id) and l._replace(speed_kmph=sim.road_network.link_from_link_id(l.link_id).speed_kmph).travel_time_seconds
+                           for l in broute if l.start != l.end)
+                if need <= delta and energy_of(v) > 0:
+                    out.append(('C06', 'route_completable_in_this_step_not_exhausted', {'vehicle': v.id, 'travel_time_s': need, 'delta_s': delta, 'links_left': len(route)}))
             if len(route) == 0 and len(broute) > 0 and v.geoid != broute[-1].end:
                 out.append(('C06', 'route_exhausted_away_from_destination', {'vehicle': v.id, 'position': v.geoid, 'destination': broute[-1].end,
                                                                               'links_before': len(broute), 'odometer_delta': dodo}))
